@@ -3,6 +3,16 @@
 \* through the REAL parser and converted by the REAL Command::response / CommandList::responses (`mpdv typed`),
 \* with the projected typed value.  TLC computes what the reply means with Typed.tla and compares.
 EXTENDS Typed, TLC, Json, IOUtils, SequencesExt
+
+\* what the overridden iterator adaptors of the list value iterators (borrowed and owning) must yield for the value sequence vs
+ListAdaptors(vs) == LET n == Len(vs)
+                        LOpt(k) == IF k >= 1 /\ k <= n THEN <<vs[k]>> ELSE <<>>
+                        LRev == [k \in 1..n |-> vs[n - k + 1]]
+                        \* front, back, front, back ... until exhausted
+                        LMixed == [k \in 1..n |-> IF k % 2 = 1 THEN vs[(k + 1) \div 2] ELSE vs[n - (k \div 2) + 1]] IN
+   [len |-> n, count |-> n, last |-> LOpt(n), nth1 |-> LOpt(2), nthb1 |-> LOpt(n - 1),
+    o_len |-> n, o_count |-> n, o_last |-> LOpt(n), o_nth1 |-> LOpt(2), o_nthb1 |-> LOpt(n - 1), o_back |-> LRev, mixed |-> LMixed,
+    len_after_next |-> IF n = 0 THEN 0 ELSE n - 1, ref_iter |-> vs]
 N == INSTANCE Names
 Recs == ndJsonDeserialize(IOEnv.TRACE)
 Chrono == IOEnv.CHRONO = "1"
@@ -82,6 +92,7 @@ ValueEq(r, e) ==
     [] c = "List" -> v.values = e.values /\ v.owned = e.values /\ v.back = [k \in 1..Len(e.values) |-> e.values[Len(e.values) - k + 1]]
                      /\ v.raw = [k \in 1..Len(e.raw) |-> <<N!Canonical(e.raw[k][1]), e.raw[k][2]>>]
                      /\ v.grouped = [k \in 1..Len(e.grouped) |-> <<e.grouped[k][1], <<>>>>]
+                     /\ v.ad = ListAdaptors(e.values)
     [] c \in {"ListGroup1", "ListGroup2"} -> v.grouped = e.grouped /\ v.raw = [k \in 1..Len(e.raw) |-> <<N!Canonical(e.raw[k][1]), e.raw[k][2]>>]
     [] c = "GetPlaylists" -> v.playlists = e
     [] c = "StickerGet" -> v.value = e /\ v.into = e
